@@ -97,7 +97,7 @@ func init() {
 			case 0:
 				f.Kind = "empty"
 			case 1, 2, 3:
-				f.Kind, f.Plain, f.Raw = "gz", content, gz(content)
+				f.Kind, f.Plain, f.Raw = "gz", content, gzMembers(content, gzCuts(t, len(content)))
 			case 4:
 				f.Kind = "gz-badheader"
 				f.Raw = append([]byte{0x1f, 0x8b, 0x07, 0, 0, 0, 0, 0, 0, 3}, content...)
@@ -186,6 +186,11 @@ func init() {
 		}
 		// ---- faults ----
 		c06Opts := simrt.Opts{MaxSteps: 400000, IdleLimit: time.Hour}
+		if t.FBool(1, 4) {
+			// slow stages: any goroutine may lose some fake milliseconds at a yield
+			c06Opts.YieldLatPermille = []int{5, 40, 200}[t.F(3)]
+			c06Opts.YieldLatMaxMs = []int{3, 40, 150}[t.F(3)]
+		}
 		if t.FBool(1, 2) {
 			c06Opts.Knobs = map[string]int{"rare/pkg/extractor/batchers.ReadAheadBufferSize": []int{1, 4, 9, 32, 128, 1024}[t.F(6)]}
 		}
@@ -211,7 +216,13 @@ func init() {
 			}
 		}
 		if useStdin {
-			s.StdinR = &simrt.ScriptReader{Name: "<stdin>", Data: stdinData, Plan: &simrt.ReadPlan{ErrAt: -1, Chunk: true, Stall: t.FBool(1, 3)}}
+			// a producer that pauses: the 250ms time flush of the stdin path fires with partial batches pending
+			sp := &simrt.ReadPlan{ErrAt: -1, Chunk: true, Stall: t.FBool(1, 3)}
+			if t.FBool(1, 2) {
+				sp.LatPermille = []int{200, 600, 1000}[t.F(3)]
+				sp.LatMaxMs = []int{40, 300, 700}[t.F(3)]
+			}
+			s.StdinR = &simrt.ScriptReader{Name: "<stdin>", Data: stdinData, Plan: sp}
 		}
 		// ---- expectations ----
 		exp := map[string]*c06Expect{}
